@@ -74,8 +74,10 @@ PROPS = {
     "C05": {
         "ops": [("c05", "RunSys", {"quick": 400, "thorough": 6000}),
                 ("sys", "RunSys", {"quick": 100, "thorough": 1500}),
-                ("c01", "RunC01", {"quick": 120, "thorough": 1200})],
-        "rule": "op c05: the honest prover's plan for requests drawn with the repository's own sampler on flat and variable-difficulty chains (gaps below, "
+                ("c01", "RunC01", {"quick": 120, "thorough": 1200}),
+                ("fh", "RunFH", {"quick": 240, "thorough": 4000})],
+        "rule": "op fh: an honest peer's authentic BlockFilterHashes are never banned (also after a fork switch), and a peer that delivers the blocks it was asked for is not timed out even when set_scripts cleared the matched blocks meanwhile; " + 
+                "op c05: the honest prover's plan for requests drawn with the repository's own sampler on flat and variable-difficulty chains (gaps below, "
                 "at and above last-N, unknown start hash) compared with Model/HonestProver.v, and the client's verdict on it; op sys: honest event histories "
                 "(1-3 protocol-following peers at different heights, chain growth, reconnects, closing rounds) with the no-ban / convergence oracles; op c01: "
                 "the honest answer through the whole handler; distinct = distinct model input expression",
